@@ -2,8 +2,10 @@ package enginesim
 
 import (
 	"context"
+	"database/sql"
 	"errors"
 	"fmt"
+	"io"
 	"math/big"
 	"sort"
 	"sync"
@@ -194,6 +196,23 @@ type ModelStore struct {
 }
 
 // ErrInjectedRead is what a store read answers when the plan makes it fail (a lost connection, a timeout).
+// InsertFault is the error of a failing InsertLogs, by Plan.FaultKind: errors of the kinds a database driver hands
+// back when a connection, a context or a transaction goes away under a batch. The engine has no business telling
+// them apart: an insert that failed has not persisted anything.
+func InsertFault(kind int) error {
+	switch kind {
+	case 1:
+		return fmt.Errorf("injected store failure: inserting logs: %w", context.Canceled)
+	case 2:
+		return fmt.Errorf("injected store failure: inserting logs: %w", context.DeadlineExceeded)
+	case 3:
+		return fmt.Errorf("injected store failure: %w", sql.ErrTxDone)
+	case 4:
+		return io.ErrUnexpectedEOF
+	}
+	return fmt.Errorf("injected store failure")
+}
+
 var ErrInjectedRead = errors.New("injected store read failure")
 
 func newModelStore(sim *Sim) *ModelStore {
@@ -457,7 +476,7 @@ func (m *ModelStore) InsertLogs(ctx context.Context, logs ...*ledger.ChainedLog)
 	case res.fault:
 		att.Outcome = "failed"
 		m.Attempts = append(m.Attempts, att)
-		return fmt.Errorf("injected store failure")
+		return InsertFault(m.sim.plan.FaultKind)
 	}
 	att.Outcome = "committed"
 	m.Attempts = append(m.Attempts, att)
